@@ -26,6 +26,7 @@ EXPLANATION = (
     "`x is None` == missing(x). (R5) neither backend's uniqueness check filters or masks nulls (duplicated()/is_duplicated() both count repeated nulls); (R6) both containers decide `declares a default` by `default is (not) None`, never by truthiness. " 
     " (R7) polars ColumnBackend.set_default applies fill_null on every path (reaching-definition walk; fill_nan alone leaves the nulls of a float column); (R8) both add_missing_columns compute the final column selection from the frame's own columns as well as the schema's (undeclared columns are kept unless strict says otherwise). " 
     " (R9) a declared default reaches a polars expression context (with_columns / fill_null / fill_nan) only as pl.lit(default) or under an isinstance(default, pl.Expr) test - a bare str there is a column reference. " 
+    " (R10) the polars container fills defaults only for columns the frame has (non-regex); (R11) polars check_nullable asks is_not_null on every path (is_not_nan alone answers null for a null cell, which aggregations skip). " 
     "NOT decided: equality of failing cells and parsed outputs on data; numeric/regex "
     "dialect differences between python re/numpy and rust."
 )
